@@ -12,6 +12,7 @@ exception raised as well as the result, and imply that no Go panic (`Err.panic`)
 import GPy.C13.Proofs
 import GPy.C13.HeapProofs
 import GPy.C13.Proofs2
+import GPy.C13.GenProofs
 namespace GPy.C13
 
 /-! ### slice normalisation (py/slice.go GetIndices) -/
@@ -40,6 +41,27 @@ theorem getindices_spec (sl : Slice) (wf : sl.WF) (n : Nat) (hn : (n : Int) ≤ 
     intro j hj
     have hg : (sliceIndices n s e d)[j]? = some (a + j * k) := by rw [h.eq_prog]; exact prog_getElem? k _ a j hj
     exact ⟨hg, h.inb _ (List.mem_of_getElem? hg)⟩
+
+
+/-! ### regenerated tie (extract/goint, slice mode): `(*Slice).GetIndices` as it stands in the working tree -/
+
+/-- the Lean TRANSLATION of py/slice.go's `GetIndices` (regenerated on every run) is the model the theorems speak about -/
+theorem generated_getindices_is_model (r : Slice) (length : Int) :
+    Gen.Slice_GetIndices r length = getIndices r length := gen_getIndices r length
+
+/-- **Headline on the regenerated code.** `getindices_spec` restated for the translated Go function: for every length
+and every well-formed slice the code of the working tree raises Python's exception or returns `(a, _, k, m)` enumerating
+exactly Python's slice positions, all of them valid indices. -/
+theorem generated_getindices_spec (sl : Slice) (wf : sl.WF) (n : Nat) (hn : (n : Int) ≤ IntMax) :
+    match Gen.Slice_GetIndices sl n, specSliceIdx n sl with
+    | .ok (a, _, k, m), .ok idxs =>
+        0 ≤ m ∧ idxs.length = m.toNat ∧
+        ∀ j : Nat, j < m.toNat → idxs[j]? = some (a + j * k) ∧ 0 ≤ a + j * k ∧ a + j * k < n
+    | .error e1, .error e2 => e1 = e2
+    | _, _ => False := by
+  rw [gen_getIndices]; exact getindices_spec sl wf n hn
+
+theorem generated_slice_translation_covers : Gen.translated = ["Slice.GetIndices"] := by decide
 
 /-- the bounds GetIndices returns are themselves inside the sequence (what `l.Items[stop:]`,
 `l.Items[:start]`, `t[start:stop]` rely on) -/
